@@ -693,6 +693,11 @@ func (f *MemFile) Write(b []byte) (n int, err error) {
 		return 0, &fs.PathError{Op: op, Path: f.name, Err: err}
 	}
 
+	if len(b) == 0 {
+		// writing nothing changes nothing : neither the size of the file nor the position.
+		return 0, nil
+	}
+
 	verifYield(&nd.mu, true)
 	nd.mu.Lock()
 
@@ -749,6 +754,11 @@ func (f *MemFile) WriteAt(b []byte, off int64) (n int, err error) {
 
 	if f.nd == nil {
 		return 0, &fs.PathError{Op: op, Path: f.name, Err: fs.ErrClosed}
+	}
+
+	if len(b) == 0 {
+		// writing nothing changes nothing, wherever the offset is : as os.File, nothing else is checked.
+		return 0, nil
 	}
 
 	nd, ok := f.nd.(*fileNode)
